@@ -348,6 +348,9 @@ func runFixtures(repo, dir, props, knownPath string) int {
 
 // fixtureOverlay returns the contents of the files a fixture patch touches after applying it.
 func fixtureOverlay(repo, patch string) (map[string][]byte, string, error) {
+	if abs, err := filepath.Abs(patch); err == nil {
+		patch = abs
+	}
 	b, err := os.ReadFile(patch)
 	if err != nil {
 		return nil, "", err
